@@ -174,6 +174,8 @@ sse_rule_loadoffX (OrcCompiler *compiler, void *user, OrcInstruction *insn)
   } else {
     ptr_reg = src->ptr_register;
   } 
+  /* the address includes the constant offset: whatever is known about the
+   * alignment of the array itself does not hold for it */
   switch (src->size << compiler->loop_shift) {
     case 1:
 #ifndef MMX
@@ -196,15 +198,15 @@ sse_rule_loadoffX (OrcCompiler *compiler, void *user, OrcInstruction *insn)
       break;
     case 4:
       orc_x86_emit_mov_memoffset_sse (compiler, 4, offset, ptr_reg,
-          dest->alloc, src->is_aligned);
+          dest->alloc, FALSE);
       break;
     case 8:
       orc_x86_emit_mov_memoffset_sse (compiler, 8, offset, ptr_reg,
-          dest->alloc, src->is_aligned);
+          dest->alloc, FALSE);
       break;
     case 16:
       orc_x86_emit_mov_memoffset_sse (compiler, 16, offset, ptr_reg,
-          dest->alloc, src->is_aligned);
+          dest->alloc, FALSE);
       break;
     default:
       orc_compiler_error (compiler,"bad load size %d",
